@@ -230,6 +230,62 @@ def _fold_returns(stmts, depth=0):
     return None
 
 
+def _unroll_literal_loops(stmts):
+    """in a freshly written-out helper body: `T = ((A, 'x'), (B, 'y'))` + `for p, r in T: <body>` (T used nowhere else) becomes the bodies
+    with p, r replaced by the elements - what the code looked like before the table-driven helper was introduced.  Only for tables of
+    names / constants, loops without break / continue / else whose variables the body does not assign."""
+    def plain(e):
+        return isinstance(e, ast.Constant) or _simple(e)
+    tables = {}
+    for st in stmts:
+        if isinstance(st, ast.Assign) and len(st.targets) == 1 and isinstance(st.targets[0], ast.Name) and isinstance(st.value, (ast.Tuple, ast.List)):
+            tables[st.targets[0].id] = st
+    uses = {}
+    for st in stmts:
+        for n in ast.walk(st):
+            if isinstance(n, ast.Name) and n.id in tables:
+                uses[n.id] = uses.get(n.id, 0) + 1
+    out, drop = [], set()
+    for st in stmts:
+        if not isinstance(st, ast.For) or st.orelse:
+            out.append(st)
+            continue
+        it = st.iter
+        src = None
+        if isinstance(it, ast.Name) and it.id in tables and uses.get(it.id) == 2:      # the binding and this loop
+            src, it = it.id, tables[it.id].value
+        if not isinstance(it, (ast.Tuple, ast.List)) or not it.elts or len(it.elts) > 12:
+            out.append(st)
+            continue
+        tg = st.target
+        names = [tg.id] if isinstance(tg, ast.Name) else [e.id for e in tg.elts] if isinstance(tg, (ast.Tuple, ast.List)) and all(
+            isinstance(e, ast.Name) for e in tg.elts) else None
+        rows = []
+        for e in it.elts:
+            row = [e] if isinstance(tg, ast.Name) else list(e.elts) if isinstance(e, (ast.Tuple, ast.List)) else None
+            if names is None or row is None or len(row) != len(names) or not all(plain(x) for x in row):
+                rows = None
+                break
+            rows.append(row)
+        body_nodes = [n for b_ in st.body for n in ast.walk(b_)]
+        if not rows or any(isinstance(n, (ast.Break, ast.Continue)) for n in body_nodes) or any(
+                isinstance(n, ast.Name) and n.id in names and isinstance(n.ctx, (ast.Store, ast.Del)) for n in body_nodes):
+            out.append(st)
+            continue
+        # the loop variables must not be read after the loop
+        later = stmts[stmts.index(st) + 1:]
+        if any(isinstance(n, ast.Name) and n.id in names for l_ in later for n in ast.walk(l_)):
+            out.append(st)
+            continue
+        for row in rows:
+            sub = dict(zip(names, row))
+            for b_ in st.body:
+                out.append(_Rename({}, sub).visit(copy.deepcopy(b_)))
+        if src:
+            drop.add(id(tables[src]))
+    return [x for x in out if id(x) not in drop]
+
+
 def _simple(e):
     if isinstance(e, (ast.Name, ast.Constant)):
         return True
@@ -284,8 +340,10 @@ def _globals_in_order(h):
     return [nm for s in h.node.body if isinstance(s, ast.Global) for nm in s.names]
 
 
-def _instantiate(h, call, receiver, counter):
-    """helper body ready to be spliced in for this call: (prologue assignments, body statements)"""
+def _instantiate(h, call, receiver, counter, alias_to=None):
+    """helper body ready to be spliced in for this call: (prologue assignments, body statements).  alias_to: names of the caller that are
+    dead once the call returns (`x = h(x)`: x; `return h(x)`: every local) - a parameter the helper re-assigns may then simply BE such a
+    name instead of a copy of it"""
     params, defaults, body, assigned = _prepare(h)
     args = list(call.args)
     kw = {k.arg: k.value for k in call.keywords}
@@ -311,9 +369,14 @@ def _instantiate(h, call, receiver, counter):
     suffix = "_%s%d" % (h.node.name.strip("_"), counter)
     mapping = {n: n + suffix for n in assigned}
     subst, prologue = {}, []
+    def names_in(e):
+        return [x.id for x in ast.walk(e) if isinstance(x, ast.Name)]
     for p, v in bound.items():
         if p not in assigned and _simple(v):
             subst[p] = v
+        elif alias_to and isinstance(v, ast.Name) and (alias_to == "*" or v.id in alias_to) and v.id not in ("self", "cls") \
+                and sum(names_in(w).count(v.id) for w in bound.values()) == 1:
+            mapping[p] = v.id
         else:
             mapping[p] = p + suffix
             prologue.append(ast.Assign(targets=[ast.Name(id=p + suffix, ctx=ast.Store())], value=copy.deepcopy(v)))
@@ -338,6 +401,7 @@ def build_overlay(ctx):
     touched = set()
     counter = [0]
     pending_globals = {}
+    in_try = {}
 
     def receiver_of(call):
         f_ = call.func
@@ -370,9 +434,17 @@ def build_overlay(ctx):
                 return None
             pending_globals.setdefault(owner.key, [])
             pending_globals[owner.key] += [g_ for g_ in _globals_in_order(h) if g_ not in declared and g_ not in pending_globals[owner.key]]
+        alias_to = None
+        if id(st) not in in_try.setdefault(owner.key, {id(x) for t_ in _own_walk(owner.node) if isinstance(t_, ast.Try) for x in ast.walk(t_)}):
+            local_names = {n.id for n in _own_walk(owner.node) if isinstance(n, ast.Name) and isinstance(n.ctx, ast.Store)} | set(owner.params())
+            declared_gl = {nm for s_ in owner.node.body if isinstance(s_, ast.Global) for nm in s_.names}
+            if kind == "assign" and isinstance(st.targets[0], ast.Name) and st.targets[0].id in local_names - declared_gl:
+                alias_to = {st.targets[0].id}
+            elif kind == "return":
+                alias_to = local_names - declared_gl - {"self", "cls"}
         try:
             counter[0] += 1
-            pro, body = _instantiate(h, call, receiver_of(call), counter[0])
+            pro, body = _instantiate(h, call, receiver_of(call), counter[0], alias_to)
             if kind == "return":
                 out = pro + body
                 if not _always_returns(body):
@@ -396,12 +468,18 @@ def build_overlay(ctx):
                 try:
                     conv, term = _convert(body, sink)
                 except NotInlinable:
+                    # the result is assigned up front: nothing in the helper may read the variable it goes to
+                    tnames = {x.id for t_ in (st.targets if kind == "assign" else []) for x in ast.walk(t_) if isinstance(x, ast.Name)}
+                    if tnames & {x.id for b_ in pro + body for x in ast.walk(b_) if isinstance(x, ast.Name)}:
+                        raise
                     conv, term = _convert_default_first(body, sink)
                 if not term and kind == "assign":
                     conv = conv + sink(None)
                 out = pro + conv
         except NotInlinable:
             return None
+        out = [x for x in _unroll_literal_loops(out) if not (isinstance(x, ast.Assign) and len(x.targets) == 1 and isinstance(x.targets[0], ast.Name)
+                                                          and isinstance(x.value, ast.Name) and x.value.id == x.targets[0].id)]
         for x in out:
             ast.copy_location(x, st)
             for y in ast.walk(x):
@@ -615,10 +693,6 @@ def build_overlay(ctx):
             pro, hb = _instantiate(h, call, receiver_of(call), counter[0])
         except NotInlinable:
             return False
-        if gl:
-            pending_globals.setdefault(f.key, [])
-            pending_globals[f.key] += [g_ for g_ in _globals_in_order(h) if g_ not in declared and g_ not in pending_globals[f.key]]
-
         def cont(e):
             if isinstance(e, ast.Constant):
                 truth = bool(e.value) != neg
@@ -626,22 +700,33 @@ def build_overlay(ctx):
             t = ast.UnaryOp(op=ast.Not(), operand=e) if neg else e
             return [ast.If(test=t, body=[copy.deepcopy(x) for x in st.body], orelse=[copy.deepcopy(x) for x in st.orelse])]
 
-        def conv(stmts):
+        def conv(stmts, guarded=False):
             out = []
             for x in stmts:
                 if isinstance(x, ast.Return):
-                    out += cont(x.value if x.value is not None else ast.Constant(value=None)) + [ast.Return(value=None)]
+                    branch = cont(x.value if x.value is not None else ast.Constant(value=None))
+                    if branch and guarded:
+                        # the caller's branch would run inside the helper's try / with: its exceptions would meet the helper's handlers
+                        raise NotInlinable("branch code would move under the helper's try/with")
+                    out += branch + [ast.Return(value=None)]
                     continue
+                g2 = guarded or isinstance(x, (ast.Try, ast.With))
                 for fld in ("body", "orelse", "finalbody"):
                     sub = getattr(x, fld, None)
                     if isinstance(sub, list) and sub and isinstance(sub[0], ast.stmt):
-                        setattr(x, fld, conv(sub))
+                        setattr(x, fld, conv(sub, g2))
                 if isinstance(x, ast.Try):
                     for h_ in x.handlers:
-                        h_.body = conv(h_.body)
+                        h_.body = conv(h_.body, g2)
                 out.append(x)
             return out
-        new = pro + conv(hb)
+        try:
+            new = pro + conv(hb)
+        except NotInlinable:
+            return False
+        if gl:
+            pending_globals.setdefault(f.key, [])
+            pending_globals[f.key] += [g_ for g_ in _globals_in_order(h) if g_ not in declared and g_ not in pending_globals[f.key]]
         if not _always_returns(hb):
             new += cont(ast.Constant(value=None))
         # copies of B made for several return sites: their calls of new helpers stay known to the later passes
